@@ -191,7 +191,11 @@ let print_obs oc (o : obs) =
 let split_ws (s : string) : string list =
   List.filter (fun x -> x <> "") (String.split_on_char ' ' (String.trim s))
 
+exception Case_timeout
+let case_timeout = try int_of_string (Sys.getenv "MODEL_CASE_TIMEOUT") with _ -> 120
+
 let () =
+  Sys.set_signal Sys.sigalrm (Sys.Signal_handle (fun _ -> raise Case_timeout));
   let ic = if Array.length Sys.argv > 1 then open_in Sys.argv.(1) else stdin in
   let oc = stdout in
   let cur : op list ref = ref [] in
@@ -207,8 +211,13 @@ let () =
       | ["end"] ->
         if !in_case then begin
           let ops = List.rev !cur in
-          (try List.iter (print_obs oc) (run_script ops)
-           with Stack_overflow -> Printf.fprintf oc "driver-error stack-overflow\n");
+          (try
+             ignore (Unix.alarm case_timeout);
+             List.iter (print_obs oc) (run_script ops);
+             ignore (Unix.alarm 0)
+           with
+           | Stack_overflow -> ignore (Unix.alarm 0); Printf.fprintf oc "driver-error stack-overflow\n"
+           | Case_timeout -> Printf.fprintf oc "driver-error model-timeout\n");
           Printf.fprintf oc "end\n"; flush oc; in_case := false end
       | _ ->
         (try cur := parse_op toks :: !cur
